@@ -146,7 +146,14 @@ func checkCodecs(c *core.Ctx, rule string, parts map[string]bool) {
 	for _, s := range codecTable {
 		known[s.Type] = true
 	}
-	if valueIface != nil {
+	if valueIface != nil && !func() bool {
+		for k := range parts {
+			if strings.HasPrefix(k, "type:") {
+				return true
+			}
+		}
+		return false
+	}() {
 		for _, n := range fixPkg.Types.Scope().Names() {
 			tn, ok := fixPkg.Types.Scope().Lookup(n).(*types.TypeName)
 			if !ok || types.IsInterface(tn.Type()) {
@@ -157,7 +164,16 @@ func checkCodecs(c *core.Ctx, rule string, parts map[string]bool) {
 			}
 		}
 	}
+	onlyTypes := false
+	for k := range parts {
+		if strings.HasPrefix(k, "type:") {
+			onlyTypes = true
+		}
+	}
 	for _, sp := range codecTable {
+		if onlyTypes && !parts["type:"+sp.Type] {
+			continue
+		}
 		tb := methodOf(c, "fix", sp.Type, "ToBytes")
 		fb := methodOf(c, "fix", sp.Type, "FromBytes")
 		set := methodOf(c, "fix", sp.Type, "Set")
